@@ -289,3 +289,76 @@ for _p, _r in (("C10", "R10.2"), ("C11", "R11.1")):
 fire("C09", "encoder-vectorised-differently", "R9.6", E(MG, "contract_pair", "        if skip_char:\n            skip_char = False\n            continue\n", "        if skip_char:\n            skip_char = False\n"), "the encoder no longer skips the second half of a contracted pair the way the trainer does", allow_error=True)
 
 VARIANTS = V
+
+# --- C17 / C10: the exact-prior kernel (seeded C17)
+_IW_LOOP_OLD = """    count_indices_set = set(count_indices)
+    for i in range(baseline_probabilities.shape[0]):
+        if i in count_indices_set:
+            idx = np.searchsorted(count_indices, i)
+            observed_probability = (
+                count_data[idx] + prior_strength * baseline_probabilities[i]
+            ) / observed_norm
+            if observed_probability > 0.0:
+                result += observed_probability * np.log(
+                    observed_probability / baseline_probabilities[i]
+                )
+        else:
+            result += baseline_probabilities[i] * observed_zero_constant
+"""
+_IW_LOOP_NNZ = """    unobserved_mass = 1.0
+    for i in range(count_indices.shape[0]):
+        idx = count_indices[i]
+        unobserved_mass -= baseline_probabilities[idx]
+        observed_probability = (
+            count_data[i] + prior_strength * baseline_probabilities[idx]
+        ) / observed_norm
+        if %s:
+            result += observed_probability * np.log(
+                observed_probability / baseline_probabilities[idx]
+            )
+    result += unobserved_mass * observed_zero_constant
+"""
+fire("C17", "term-skipped-on-raw-count", "R17.5", E(IW, "column_kl_divergence_exact_prior", "            if observed_probability > 0.0:", "            if count_data[idx] > 0.0:"),
+     "a stored zero count loses its prior mass term")
+fire("C17", "nnz-walk-skips-stored-zeros", "R17.5", E(IW, "column_kl_divergence_exact_prior", _IW_LOOP_OLD, _IW_LOOP_NNZ % "count_data[i] > 0.0"),
+     "seeded C17: O(nnz) rewrite that subtracts the baseline mass of every stored entry but adds the term only for positive counts")
+silent("C17", "nnz-walk-correct", E(IW, "column_kl_divergence_exact_prior", _IW_LOOP_OLD, _IW_LOOP_NNZ % "observed_probability > 0.0"),
+       "the same O(nnz) rewrite done right")
+silent("C10", "iw-nnz-walk-correct", E(IW, "column_kl_divergence_exact_prior", _IW_LOOP_OLD, _IW_LOOP_NNZ % "observed_probability > 0.0"),
+       "the exact-prior kernel without a binary search: nothing to guard, no anchor lost")
+fire("C17", "membership-guard-dropped", "R17.4", E(IW, "column_kl_divergence_exact_prior", "        if i in count_indices_set:", "        if i >= 0:"),
+     "the binary-search position is used for rows that have no stored entry")
+fire("C10", "iw-membership-guard-dropped", "R10.2", E(IW, "column_kl_divergence_exact_prior", "        if i in count_indices_set:", "        if i >= 0:"),
+     "the binary-search position is used for rows that have no stored entry")
+silent("C17", "membership-inline-set", [E(IW, "column_kl_divergence_exact_prior", "    count_indices_set = set(count_indices)\n", ""),
+                                       E(IW, "column_kl_divergence_exact_prior", "        if i in count_indices_set:", "        if i in set(count_indices):")],
+       "membership test written in place")
+
+# --- C18: value buffers of the sparse helpers (seeded C18)
+fire("C18", "sum-buffer-borrows-dtype", "R18.5", E(DIST, "sparse_sum", "result_data = np.zeros(result_ind.shape[0], dtype=np.float32)", "result_data = np.zeros(result_ind.shape[0], dtype=data1.dtype)"),
+     "seeded C18: an integer first operand truncates the sums")
+fire("C18", "mul-buffer-borrows-dtype", "R18.5", E(DIST, "sparse_mul", "result_data = np.zeros(result_ind.shape[0], dtype=np.float32)", "result_data = np.zeros(result_ind.shape[0], dtype=data2.dtype)"),
+     "an integer second operand truncates the products")
+silent("C18", "union-buffers-own-dtype", [E(DIST, "dense_union", "result_data1 = np.zeros(result_ind.shape[0], dtype=np.float32)", "result_data1 = np.zeros(result_ind.shape[0], dtype=data1.dtype)"),
+                                         E(DIST, "dense_union", "result_data2 = np.zeros(result_ind.shape[0], dtype=np.float32)", "result_data2 = np.zeros(result_ind.shape[0], dtype=data2.dtype)")],
+       "each buffer of dense_union holds one operand's values only: borrowing that operand's dtype loses nothing")
+silent("C18", "sum-buffer-float64", E(DIST, "sparse_sum", "result_data = np.zeros(result_ind.shape[0], dtype=np.float32)", "result_data = np.zeros(result_ind.shape[0], dtype=np.float64)"),
+       "a wider floating buffer")
+
+# --- C19: sampled positions taken in one step (seeded C19)
+fire("C19", "sampled-window-offset-i", "R19.3", E(SW, "sliding_windows", "result[i] = kernel(sequence[i * stride : i * stride + width][sample])", "result[i] = kernel(sequence[sample + i])"),
+     "seeded C19: the offset is the window number, not the window start")
+silent("C19", "sampled-window-one-step", E(SW, "sliding_windows", "result[i] = kernel(sequence[i * stride : i * stride + width][sample])", "result[i] = kernel(sequence[sample + i * stride])"),
+       "the same optimisation done right")
+silent("C19", "sampled-window-one-step-commuted", E(SW, "sliding_windows", "result[i] = kernel(sequence[i * stride : i * stride + width][sample])", "result[i] = kernel(sequence[stride * i + sample])"),
+       "the same, operands commuted")
+
+# --- C07: what the solver is handed (seeded C07)
+fire("C07", "cost-rescaled-unguarded", "R7.4", E(LOT, "transport_plan", "    initialize_cost(cost, graph, node_arc_data.cost)", "    initialize_cost(cost / cost.max(), graph, node_arc_data.cost)"),
+     "seeded C07: an all-zero cost matrix becomes NaN")
+fire("C07", "cost-rescaled-unguarded-local", "R7.4", E(LOT, "transport_plan", "    initialize_cost(cost, graph, node_arc_data.cost)", "    scale = cost.sum()\n    cost = cost / scale\n    initialize_cost(cost, graph, node_arc_data.cost)"),
+     "the same through locals")
+silent("C07", "cost-rescaled-guarded", E(LOT, "transport_plan", "    initialize_cost(cost, graph, node_arc_data.cost)", "    scale = cost.max()\n    if scale > 0.0:\n        cost = cost / scale\n    initialize_cost(cost, graph, node_arc_data.cost)"),
+       "rescaling under a non-zero test of the scale")
+silent("C07", "cost-halved", E(LOT, "transport_plan", "    initialize_cost(cost, graph, node_arc_data.cost)", "    initialize_cost(cost / 2.0, graph, node_arc_data.cost)"),
+       "division by a non-zero constant")
